@@ -270,6 +270,18 @@ def eval : Nat → EnvId → Node → EvalM RVal
       | .ok _ s'' => .err v m p t s''
       | .err v2 m2 p2 t2 s'' => .err v2 m2 p2 t2 s''
       | .fail f s'' => .fail f s''
+    -- Python's `finally` also runs when a CklSyntaxError (require of a broken module) or a
+    -- host exception passes through the block
+    | .fail (.syn e) s' =>
+      match evalFinally fuel env fin (ghostFin s' pos) with
+      | .ok _ s'' => .fail (.syn e) s''
+      | .err v2 m2 p2 t2 s'' => .err v2 m2 p2 t2 s''
+      | .fail f s'' => .fail f s''
+    | .fail (.host k) s' =>
+      match evalFinally fuel env fin (ghostFin s' pos) with
+      | .ok _ s'' => .fail (.host k) s''
+      | .err v2 m2 p2 t2 s'' => .err v2 m2 p2 t2 s''
+      | .fail f s'' => .fail f s''
     | .fail f s' => .fail f s'
   | _ + 1, _, .brk pos => pure (.brk pos)
   | _ + 1, _, .cont pos => pure (.cont pos)
